@@ -331,12 +331,13 @@ theorem C06_model_holds (G : Geos σ) (hG : Sound G) (g1 g2 : Geom) (tb fb : Rat
       decide ((timeBounds G p1).2 ≤ (timeBounds G p2).1 ∨ (timeBounds G p2).2 ≤ (timeBounds G p1).1)⟩).all
       = true := by
   obtain ⟨r0, r1⟩ := C06_range G hG.sane g1 g2 tb fb a12 w1 w2 e12
+  obtain ⟨q0, q1⟩ := C06_range G hG.sane g2 g1 tb fb a21 w2 w1 e21
   have hs : a12 = a21 := by
     rw [C06_symm G hG g1 g2 tb fb, e21] at e12
     cases e12; rfl
   simp only [ObsVerdict.all, judgeObs, Bool.and_eq_true, Bool.or_eq_true, Bool.not_eq_true',
     decide_eq_true_eq, Bool.and_eq_false_imp, decide_eq_false_iff_not]
-  refine ⟨⟨⟨⟨r0, r1⟩, hs⟩, ?_⟩, ?_⟩
+  refine ⟨⟨⟨⟨⟨⟨r0, r1⟩, q0⟩, q1⟩, hs⟩, ?_⟩, ?_⟩
   · by_cases hsame : g1 = g2
     · by_cases hext : 0 < extent G p1
       · right
